@@ -385,6 +385,41 @@ Section Sem.
 End Sem.
 
 (* ------------------------------------------------------------------------------------------ *)
+(** * Part 3: the FILES-CONDITION that lists a tree (populate, then match) *)
+
+(** [str.join('/')] of the components *)
+Fixpoint join_path (p : path) : name :=
+  match p with
+  | [] => []
+  | [n] => n
+  | n :: p' => n ++ SLASH :: join_path p'
+  end.
+
+Definition type_of (t : tree) : ftype :=
+  match t with File _ => TFile | Dir _ => TDir | Link _ => TSymlink end.
+
+(** every file below [t] (not following links), depth first *)
+Fixpoint listing (t : tree) (rel abs : path) : list elem :=
+  match t with
+  | Dir es =>
+      (fix go (es : dirc) : list elem :=
+         match es with
+         | [] => []
+         | p :: es' => Elem (rel ++ [fst p]) (abs ++ [fst p]) (snd p)
+                         :: listing (snd p) (rel ++ [fst p]) (abs ++ [fst p]) ++ go es'
+         end) es
+  | _ => []
+  end.
+
+(** FILE-NAME : type TYPE, one line per file *)
+Fixpoint cond_of (l : list elem) : fcond :=
+  match l with
+  | [] => FCNil
+  | e :: l' => FCNameM (join_path (e_rel e)) (FType (type_of (e_node e))) (cond_of l')
+  end.
+
+
+(* ------------------------------------------------------------------------------------------ *)
 (** * The check functions of the correspondence run *)
 
 (** Equality of trees up to the order of directory entries (names are unique in observed trees). *)
@@ -427,7 +462,13 @@ Record pcase := PCase {
   pc_tree : dirc;
   pc_outside_unchanged : bool }.
 
+(** Out of scope (decided from the INPUT alone): the instructions write through a symbolic link,
+    put into the directory beforehand, that leads to an existing file or directory elsewhere. *)
+Definition pcase_out_of_scope (c : pcase) : bool :=
+  status_eqb (snd (run_instrs (pc_instrs c) (Dir []))) SOutsideModel.
+
 Definition check_pcase (c : pcase) : bool * bool :=
+  if pcase_out_of_scope c then (true, true) else
   let '(t, s) := run_instrs (pc_instrs c) (Dir []) in
   ( status_eqb s (pc_status c) && tree_same t (Dir (pc_tree c)) && tree_same (Dir (pc_tree c)) t,
     (* the property, on what the implementation did *)
@@ -493,9 +534,38 @@ Definition check_mcase (c : mcase) : bool * bool :=
          end
     else true ).
 
-Inductive case := CP (c : pcase) | CM (c : mcase).
+(** ** Round-trip case: instructions that populate directory [rc_dir] (the run passed), followed in
+    the same test case by  [dir-contents DIR : -recursive matches -full { PATH : type TYPE ... }]
+    where the condition lists every file found in DIR afterwards.  Observed: the verdict. *)
+Record rcase := RCase {
+  rc_instrs : list instr;
+  rc_dir : name;
+  rc_cond : fcond;
+  rc_verdict : verdict }.
+
+Definition no_glob_str : nat -> name -> option bool := fun _ _ => None.
+Definition no_glob_path : nat -> path -> option bool := fun _ _ => None.
+
+Definition check_rcase (c : rcase) : bool * bool :=
+  match run_instrs (rc_instrs c) (Dir []) with
+  | (t, SPass) =>
+      match get [rc_dir c] t with
+      | Some sub =>
+          let m := FDirContents (Rec None None) (SMatches true (rc_cond c)) in
+          let rels := map e_rel (listing sub [] [rc_dir c]) in
+          ( verdict_eqb (run_assert id_order no_glob_str no_glob_path (rc_dir c) sub m) (rc_verdict c),
+            (* the condition names exactly the files of the populated directory, and it holds *)
+            Nat.eqb (length (fc_names (rc_cond c))) (length rels)
+            && forallb (fun r => mem_path r (fc_names (rc_cond c))) rels
+            && verdict_eqb (rc_verdict c) VPass )
+      | None => (false, false)
+      end
+  | _ => (false, false)
+  end.
+
+Inductive case := CP (c : pcase) | CM (c : mcase) | CR (c : rcase).
 Definition check_case (c : case) : bool * bool :=
-  match c with CP c => check_pcase c | CM c => check_mcase c end.
+  match c with CP c => check_pcase c | CM c => check_mcase c | CR c => check_rcase c end.
 
 (** Whether the declarative semantics is defined (statistics of the run). *)
 Definition sem_defined (c : mcase) : bool :=
